@@ -110,6 +110,7 @@ func (c *Chan[T]) Send(v T) {
 	c.simSendBegin()
 	c.inner <- v
 	c.simSendEnd()
+	AfterSync()
 }
 
 // simRecvBegin blocks until a value is available or the channel is closed;
@@ -146,6 +147,7 @@ func (c *Chan[T]) Recv2() (T, bool) {
 	if c.simRecvBegin() {
 		v := <-c.inner
 		c.simRecvEnd()
+		AfterSync()
 		return v, true
 	}
 	var zero T
